@@ -75,8 +75,57 @@ def benign_md(sec):
         out += "\n\nListed as undecided (exit 2, `UNDECIDED`, no `VIOLATION`):\n\n" + "\n".join("* `" + l.split()[0] + "` on " + l.split()[1] + " — " + " ".join(l.split()[2:]) for l in exp)
     return out
 
+def numbers_md(sec):
+    nrules = sum(len(p['Rules']) for p in rules)
+    distinct = len({r['ID'] for p in rules for r in p['Rules']})
+    obl = 0
+    for f in glob.glob(os.path.join(here, 'evidence/C*.json')):
+        try:
+            obl += json.load(open(f)).get('coverage', {}).get('obligations', 0)
+        except Exception:
+            pass
+    loc = 0
+    for f in glob.glob(os.path.join(here, 'checker/*.go')):
+        loc += sum(1 for _ in open(f))
+    kf = [json.loads(l) for l in open(os.path.join(here, 'known_findings.jsonl')) if l.startswith('{')]
+    nfixed = sum(1 for k in kf if k['kind'] == 'fixed')
+    nknown = sum(1 for k in kf if k['kind'] == 'known')
+    metas = [json.load(open(f)) for f in glob.glob(os.path.join(here, 'seeded/*/meta.json'))]
+    st = lambda s: sum(1 for m in metas if m['check_result']['status'] == s)
+    nmut = len(glob.glob(os.path.join(here, 'mutants/*.patch')))
+    nben = len(glob.glob(os.path.join(here, 'benign/*.patch')))
+    nrev = len([l for l in sec.get('4', []) if ' ok ' in l])
+    return f"""* **Analyser**: `/verif/checker` (module `pcheck`, ≈{loc//1000} 000 lines of Go), one
+  binary `bin/pcheck`, built offline by `setup.sh` with `go1.26.8` and
+  `golang.org/x/tools v0.50.0` from the module cache. `run.sh Cnn quick|thorough`
+  loads `/repo`'s working tree (`go/packages`, `LoadAllSyntax`, including the
+  syntax of the `github.com/hneemann/iterator` dependency), runs the rule set of
+  the property and writes `evidence/Cnn.json`.
+* **Claimed**: all twenty properties, each at level `other`; {nrules} rule instances of
+  {distinct} distinct rules (§4b; rules shared between properties are listed with
+  each), {obl} obligations on the current tree (thorough tier, three
+  configurations merged). Quick = one configuration (≈1–2 s per property),
+  thorough = three configurations (linux/amd64, `GOARCH=386`, `-tags=verif`;
+  ≈3 s). `not_applicable` is empty: every property has at least one clause in
+  reach; what is *not* decided is named per property in §5 and in each check's
+  `level_note`.
+* **Genuine defects**: {nfixed + 2} found (24 while reading for the design, the others
+  while building or through sub-agents that noticed existing behaviour while
+  they looked for places to seed a change). {nfixed} are repaired, each by one minimal
+  `fix:` commit in `/repo` (the unedited suite passes after each), and recorded
+  as `fixed` lines in `known_findings.jsonl`; 2 (D9, D16; {nknown} constructs) are
+  recorded as known findings because the repair is not small (D9) or lives in
+  the dependency (D16). §3.
+* **Validation of the analyser** (`selftest.sh`, not a registered command):
+  unchanged tree silent for all 20; {nmut} hand-written mutants (incl. combined
+  ones: a behaviour-preserving refactoring plus one broken instance);
+  {len(metas)} changes seeded by sub-agents that saw only a property's text, in three
+  rounds ({st('detected')} detected, {st('undecided')} undecided, {st('missed')} missed); {nrev} reverted `fix:` commits
+  reported again; {nben} behaviour-preserving patches x 20 properties without an
+  alarm. §10."""
+
 sec = log_sections()
-gen = {'rules': rules_md(), 'mutants': mutants_md(sec), 'reverts': reverts_md(sec), 'seeds': seeds_md(), 'benign': benign_md(sec)}
+gen = {'numbers': numbers_md(sec), 'rules': rules_md(), 'mutants': mutants_md(sec), 'reverts': reverts_md(sec), 'seeds': seeds_md(), 'benign': benign_md(sec)}
 p = os.path.join(here, 'DESIGN.md')
 s = open(p).read()
 for k, v in gen.items():
